@@ -284,12 +284,18 @@ theorem Fields.set_set (fs : Fields) (k : Nat) (a b : FVal) : (fs.set k a).set k
       · rename_i h1 h2
         simp [Fields.set, h1, h2, ih]
 
+/-- field `j` is another member of the oneof of field `f` -/
+def oneofOther (d : MsgD) (f : Field) (j : Nat) : Bool :=
+  match f.oneof with
+  | some o => d.otherMember o f.num j
+  | none => false
+
 theorem get?_setSingular (d : MsgD) (f : Field) (fs : Fields) (v : Val) (j : Nat) :
     (setSingular d f fs v).get? j =
       if f.num = j then (if f.card = .implicit && v.isZero then none else some (.one v))
-      else if (match f.oneof with | some o => d.otherMember o f.num j | none => false) then none
+      else if oneofOther d f j then none
       else fs.get? j := by
-  unfold setSingular
+  unfold setSingular oneofOther
   cases hf : f.oneof with
   | none =>
     simp only
@@ -524,5 +530,272 @@ theorem Vals.mem_msgs {vs : Vals} {m : Msg} : m ∈ vs.msgs ↔ Val.msg m ∈ vs
   | nil => simp [Vals.msgs, Vals.toList]
   | cons v tl ih =>
     cases v <;> simp [Vals.msgs, Vals.toList, ih]
+
+/-! ### pigeonhole -/
+
+/-- if every element of the duplicate-free list `xs` is `R`-matched by some element of `ys`, no
+element of `ys` is matched by two elements of `xs`, and `ys` is not longer than `xs`, then every
+element of `ys` is matched -/
+theorem pigeonhole {α β : Type} (R : α → β → Prop) : ∀ (xs : List α) (ys : List β),
+    xs.Nodup → ys.length ≤ xs.length →
+    (∀ x ∈ xs, ∃ y ∈ ys, R x y) →
+    (∀ x ∈ xs, ∀ x' ∈ xs, ∀ y, R x y → R x' y → x = x') →
+    ∀ y ∈ ys, ∃ x ∈ xs, R x y := by
+  classical
+  intro xs
+  induction xs with
+  | nil =>
+    intro ys _ hl _ _ y hy
+    cases ys with
+    | nil => cases hy
+    | cons _ _ => simp at hl
+  | cons a t ih =>
+    intro ys hn hl hex hinj y hy
+    rw [List.nodup_cons] at hn
+    obtain ⟨y0, hy0, hR0⟩ := hex a (List.mem_cons_self ..)
+    by_cases hyy : y = y0
+    · subst hyy; exact ⟨a, List.mem_cons_self .., hR0⟩
+    · have hy' : y ∈ ys.erase y0 := (List.mem_erase_of_ne hyy).mpr hy
+      have hlen : (ys.erase y0).length ≤ t.length := by
+        rw [List.length_erase_of_mem hy0]
+        simp only [List.length_cons] at hl
+        omega
+      have hex' : ∀ x ∈ t, ∃ y ∈ ys.erase y0, R x y := by
+        intro x hx
+        obtain ⟨y1, hy1, hR1⟩ := hex x (List.mem_cons_of_mem _ hx)
+        refine ⟨y1, ?_, hR1⟩
+        have hne : y1 ≠ y0 := by
+          intro e
+          subst e
+          have := hinj x (List.mem_cons_of_mem _ hx) a (List.mem_cons_self ..) y1 hR1 hR0
+          subst this
+          exact hn.1 hx
+        exact (List.mem_erase_of_ne hne).mpr hy1
+      have hinj' : ∀ x ∈ t, ∀ x' ∈ t, ∀ y, R x y → R x' y → x = x' :=
+        fun x hx x' hx' y h h' => hinj x (List.mem_cons_of_mem _ hx) x' (List.mem_cons_of_mem _ hx') y h h'
+      obtain ⟨x, hx, hR⟩ := ih (ys.erase y0) hn.2 hlen hex' hinj' y hy'
+      exact ⟨x, List.mem_cons_of_mem _ hx, hR⟩
+
+/-! ### positions vs. lookups -/
+
+theorem Fields.mem_of_get? {fs : Fields} {n : Nat} {fv : FVal} (h : fs.get? n = some fv) :
+    (n, fv) ∈ fs.toList := by
+  induction fs using Fields.ind with
+  | nil => simp [Fields.get?] at h
+  | cons m x tl ih =>
+    rw [Fields.get?_cons] at h
+    split at h
+    · rename_i hm; cases h; subst hm; simp [Fields.toList]
+    · simp [Fields.toList, ih h]
+
+theorem Fields.mem_nums_of_mem {fs : Fields} {n : Nat} {fv : FVal} (h : (n, fv) ∈ fs.toList) :
+    n ∈ fs.nums := by
+  induction fs using Fields.ind with
+  | nil => simp [Fields.toList] at h
+  | cons m x tl ih =>
+    simp only [Fields.toList, List.mem_cons, Prod.mk.injEq] at h
+    rcases h with ⟨h1, _⟩ | h
+    · simp [Fields.nums, h1]
+    · simp [Fields.nums, ih h]
+
+theorem Fields.get?_of_mem {fs : Fields} {n : Nat} {fv : FVal} (hn : fs.nums.Nodup)
+    (h : (n, fv) ∈ fs.toList) : fs.get? n = some fv := by
+  induction fs using Fields.ind with
+  | nil => simp [Fields.toList] at h
+  | cons m x tl ih =>
+    simp only [Fields.nums, List.nodup_cons] at hn
+    simp only [Fields.toList, List.mem_cons, Prod.mk.injEq] at h
+    rw [Fields.get?_cons]
+    rcases h with ⟨h1, h2⟩ | h
+    · simp [h1, h2]
+    · have : m ≠ n := fun e => hn.1 (e ▸ Fields.mem_nums_of_mem h)
+      simp [this, ih hn.2 h]
+
+theorem Fields.toList_nodup {fs : Fields} (hn : fs.nums.Nodup) : fs.toList.Nodup := by
+  induction fs using Fields.ind with
+  | nil => simp [Fields.toList]
+  | cons m x tl ih =>
+    simp only [Fields.nums, List.nodup_cons] at hn
+    simp only [Fields.toList, List.nodup_cons]
+    exact ⟨fun h => hn.1 (Fields.mem_nums_of_mem h), ih hn.2⟩
+
+theorem Fields.toList_length (fs : Fields) : fs.toList.length = fs.nums.length := by
+  induction fs using Fields.ind with
+  | nil => rfl
+  | cons m x tl ih => simp [Fields.toList, Fields.nums, ih]
+
+theorem wfFields_nodup {S : Schema} {d : MsgD} {fs : Fields} (h : wfFields S d fs = true) :
+    fs.nums.Nodup := by
+  induction fs using Fields.ind with
+  | nil => simp [Fields.nums]
+  | cons m x tl ih =>
+    rw [wfFields, Bool.and_eq_true, Bool.and_eq_true] at h
+    simp only [Fields.nums, List.nodup_cons]
+    refine ⟨?_, ih h.2⟩
+    intro hm
+    have := (Fields.get?_isSome_iff tl m).mpr hm
+    have h2 := h.1.2
+    cases hg : tl.get? m with
+    | none => rw [hg] at this; cases this
+    | some _ => rw [hg] at h2; cases h2
+
+theorem wfFields_mem {S : Schema} {d : MsgD} {fs : Fields} (h : wfFields S d fs = true)
+    {n : Nat} {fv : FVal} (hm : (n, fv) ∈ fs.toList) : ∃ f, d.find n = some f ∧ wfFVal S f fv = true := by
+  induction fs using Fields.ind with
+  | nil => simp [Fields.toList] at hm
+  | cons m x tl ih =>
+    rw [wfFields, Bool.and_eq_true, Bool.and_eq_true] at h
+    simp only [Fields.toList, List.mem_cons, Prod.mk.injEq] at hm
+    rcases hm with ⟨h1, h2⟩ | hm
+    · subst h1; subst h2
+      have h1 := h.1.1
+      split at h1
+      · rename_i f hf; exact ⟨f, hf, h1⟩
+      · cases h1
+    · exact ih h.2 hm
+
+/-- the entries of a well-formed map: keyed entry messages, each found by looking up its key -/
+theorem wfEntries_mem {S : Schema} {ei : Nat} {vs : Vals} (h : wfEntries S ei vs = true)
+    {v : Val} (hm : v ∈ vs.toList) :
+    ∃ e k, v = .msg e ∧ entryKey e = some k ∧ k.isKey = true ∧ lookupEntry vs k = some e ∧
+      wfMsg S ei e = true := by
+  induction vs using Vals.ind with
+  | nil => simp [Vals.toList] at hm
+  | cons x tl ih =>
+    rw [wfEntries, Bool.and_eq_true] at h
+    simp only [Vals.toList, List.mem_cons] at hm
+    have hx := h.1
+    cases x with
+    | msg e0 =>
+      rw [wfEntry, Bool.and_eq_true] at hx
+      have hx1 := hx.1
+      split at hx1
+      · rename_i k0 hk0
+        rw [Bool.and_eq_true] at hx1
+        rcases hm with hm | hm
+        · subst hm
+          refine ⟨e0, k0, rfl, hk0, hx1.1, ?_, hx.2⟩
+          rw [lookupEntry_cons_msg, (entryHasKey_iff _ _).mpr ⟨hk0, hx1.1⟩]; rfl
+        · obtain ⟨e, k, hv, hk, hkey, hl, hw⟩ := ih h.2 hm
+          refine ⟨e, k, hv, hk, hkey, ?_, hw⟩
+          rw [lookupEntry_cons_msg]
+          split
+          · rename_i hh
+            have := ((entryHasKey_iff _ _).mp hh).1
+            rw [hk0] at this
+            cases this
+            rw [hl] at hx1
+            simp at hx1
+          · exact hl
+      · cases hx1
+    | num n => simp [wfEntry] at hx
+    | bytes b => simp [wfEntry] at hx
+
+theorem wfEntries_nodup {S : Schema} {ei : Nat} {vs : Vals} (h : wfEntries S ei vs = true) :
+    vs.toList.Nodup := by
+  induction vs using Vals.ind with
+  | nil => simp [Vals.toList]
+  | cons x tl ih =>
+    have hall := h
+    rw [wfEntries, Bool.and_eq_true] at h
+    simp only [Vals.toList, List.nodup_cons]
+    refine ⟨?_, ih h.2⟩
+    intro hm
+    obtain ⟨e, k, hv, hk, hkey, _, _⟩ := wfEntries_mem h.2 hm
+    subst hv
+    have hx := h.1
+    rw [wfEntry, Bool.and_eq_true, hk] at hx
+    simp only [Bool.and_eq_true] at hx
+    have := lookupEntry_isSome_of_mem hm hk hkey
+    cases hl : lookupEntry tl k with
+    | none => rw [hl] at this; cases this
+    | some _ => rw [hl] at hx; simp at hx
+
+/-! ### populated well-formed message values
+
+`pwfMsg S mi m` strengthens `wfMsg` by the invariants of *populated* fields in a real message:
+a list or map that is populated is non-empty, an implicit-presence scalar that is populated is
+non-zero, at most one member of a oneof is populated — hereditarily. -/
+
+/-- fields `n` and `m` are declared members of one oneof -/
+def sameOneof (d : MsgD) (n m : Nat) : Bool :=
+  match d.find n, d.find m with
+  | some f, some g => f.oneof.isSome && f.oneof == g.oneof
+  | _, _ => false
+
+mutual
+def pwfMsg (S : Schema) (mi : Nat) : Msg → Bool
+  | .mk fs _ => pwfFields S (S.msg mi) fs
+def pwfFields (S : Schema) (d : MsgD) : Fields → Bool
+  | .nil => true
+  | .cons n fv tl =>
+    (match d.find n with
+     | some f => pwfFVal S f fv
+     | none => false) && (tl.get? n).isNone && tl.nums.all (fun m => !sameOneof d n m) &&
+    pwfFields S d tl
+def pwfFVal (S : Schema) (f : Field) : FVal → Bool
+  | .one v => pwfVal S f v && !(f.card = .implicit && v.isZero)
+  | .many vs => !vs.isNil && (if f.card = .map then pwfEntries S f.sub vs else pwfVals S f vs)
+def pwfVal (S : Schema) (f : Field) : Val → Bool
+  | .msg m => pwfMsg S f.sub m
+  | _ => true
+def pwfVals (S : Schema) (f : Field) : Vals → Bool
+  | .nil => true
+  | .cons v tl => pwfVal S f v && pwfVals S f tl
+def pwfEntries (S : Schema) (ei : Nat) : Vals → Bool
+  | .nil => true
+  | .cons v tl => pwfEntry S ei tl v && pwfEntries S ei tl
+def pwfEntry (S : Schema) (ei : Nat) (tl : Vals) : Val → Bool
+  | .msg e =>
+    (match entryKey e with
+     | some k => k.isKey && (lookupEntry tl k).isNone
+     | none => false) && pwfMsg S ei e
+  | _ => false
+end
+
+mutual
+theorem wf_of_pwfMsg (S : Schema) : ∀ (m : Msg) (mi : Nat), pwfMsg S mi m = true → wfMsg S mi m = true
+  | .mk fs _, mi, h => by
+    rw [pwfMsg] at h; rw [wfMsg]; exact wf_of_pwfFields S fs _ h
+theorem wf_of_pwfFields (S : Schema) : ∀ (fs : Fields) (d : MsgD), pwfFields S d fs = true → wfFields S d fs = true
+  | .nil, _, _ => by rw [wfFields]
+  | .cons n fv tl, d, h => by
+    rw [pwfFields, Bool.and_eq_true, Bool.and_eq_true, Bool.and_eq_true] at h
+    rw [wfFields, Bool.and_eq_true, Bool.and_eq_true]
+    refine ⟨⟨?_, h.1.1.2⟩, wf_of_pwfFields S tl d h.2⟩
+    have h1 := h.1.1.1
+    split at h1
+    · rename_i f hf; exact wf_of_pwfFVal S fv f h1
+    · cases h1
+theorem wf_of_pwfFVal (S : Schema) : ∀ (fv : FVal) (f : Field), pwfFVal S f fv = true → wfFVal S f fv = true
+  | .one v, f, h => by
+    rw [pwfFVal, Bool.and_eq_true] at h; rw [wfFVal]; exact wf_of_pwfVal S v f h.1
+  | .many vs, f, h => by
+    rw [pwfFVal, Bool.and_eq_true] at h; rw [wfFVal]
+    have h2 := h.2
+    split
+    · rename_i hm; simp only [hm, if_true] at h2; exact wf_of_pwfEntries S vs _ h2
+    · rename_i hm; simp only [hm, if_false] at h2; exact wf_of_pwfVals S vs f h2
+theorem wf_of_pwfVal (S : Schema) : ∀ (v : Val) (f : Field), pwfVal S f v = true → wfVal S f v = true
+  | .msg m, f, h => by rw [pwfVal] at h; rw [wfVal]; exact wf_of_pwfMsg S m _ h
+  | .num _, _, _ => by simp [wfVal]
+  | .bytes _, _, _ => by simp [wfVal]
+theorem wf_of_pwfVals (S : Schema) : ∀ (vs : Vals) (f : Field), pwfVals S f vs = true → wfVals S f vs = true
+  | .nil, _, _ => by rw [wfVals]
+  | .cons v tl, f, h => by
+    rw [pwfVals, Bool.and_eq_true] at h; rw [wfVals, Bool.and_eq_true]
+    exact ⟨wf_of_pwfVal S v f h.1, wf_of_pwfVals S tl f h.2⟩
+theorem wf_of_pwfEntries (S : Schema) : ∀ (vs : Vals) (ei : Nat), pwfEntries S ei vs = true → wfEntries S ei vs = true
+  | .nil, _, _ => by rw [wfEntries]
+  | .cons v tl, ei, h => by
+    rw [pwfEntries, Bool.and_eq_true] at h; rw [wfEntries, Bool.and_eq_true]
+    exact ⟨wf_of_pwfEntry S v tl ei h.1, wf_of_pwfEntries S tl ei h.2⟩
+theorem wf_of_pwfEntry (S : Schema) : ∀ (v : Val) (tl : Vals) (ei : Nat), pwfEntry S ei tl v = true → wfEntry S ei tl v = true
+  | .msg e, tl, ei, h => by
+    rw [pwfEntry, Bool.and_eq_true] at h; rw [wfEntry, Bool.and_eq_true]
+    exact ⟨h.1, wf_of_pwfMsg S e ei h.2⟩
+  | .num _, _, _, h => by simp [pwfEntry] at h
+  | .bytes _, _, _, h => by simp [pwfEntry] at h
+end
 
 end Pb
